@@ -85,7 +85,7 @@ impl Prop for C09 {
         "proptest generates (config, short history with every record kind, clean restarts); the history is flushed, acknowledged and the worker idle, then the chunk files are copied. Enumerated inside each image: every byte offset of every complete record of every chunk file x replacement values \
          (quick: the 8 single-bit flips, 0x00, 0xFF, +1, -1, payload interiors skipped; thorough: all 255 other values at every offset), plus every middle chunk file removed; when an image offers more (offset,value) pairs than the tier's budget (4 000 / 150 000) a uniform stride sub-sample chosen by the case selector is tried and the size of the full space is reported. Each mutated image is opened with the real RaftLog::open (cache limits 0 so that entries are read back from disk) under catch_unwind. \
          Oracle: open returns Err, or Ok with state and entries identical to the unmutated store (then read(0,MAX), dump_data and the offline Dump must also work); never a panic, never Ok with other contents; after an Err every chunk file other than the newest is byte-identical to before. \
-         Each mutation is classified with the reference decoder (field hit; whether the mutated record now runs past the end of the file). A mutation is non-trivial iff it hits a non-payload field or a non-newest chunk; distinct = (image, file, offset)."
+         Each mutation is classified with the reference decoder (field hit; whether the mutated record now runs past the end of the file). Second mode, corruption under a running store: the unmutated image is opened with an empty cache and, for every live entry stored in a closed chunk, bytes of its record are changed on disk one at a time; read(0,MAX) must then fail with an error (the record is re-verified on every cache-miss read). A mutation is non-trivial iff it hits a non-payload field or a non-newest chunk; distinct = (image, file, offset)."
             .to_string()
     }
     fn assumptions(&self) -> Vec<String> {
@@ -257,6 +257,70 @@ impl Prop for C09 {
                     Trial::Panic(e) => return Err(Fail::new("panic-on-corrupt-image", format!("middle chunk {} removed: panic: {e}", files[fi].1))),
                 }
                 td.restore();
+            }
+        }
+        // Corruption while the store is open: a byte of a live entry's record in a closed chunk
+        // changes under a running store whose cache holds nothing; reading that entry must
+        // fail with an error or return the original payload.
+        {
+            let config = std::sync::Arc::new(cfg.to_config(&td.dir));
+            let threads0 = crate::trace::nr_threads();
+            let rl = raft_log::RaftLog::<crate::types::VT>::open(config).map_err(|e| Fail::new("unmutated-image-differs", format!("second open of the unmutated image failed: {e}")))?;
+            rl.drain_cache_evictable();
+            let want_entries = want.entries();
+            let mut live_fail: Option<Fail> = None;
+            'outer: for (fi, (_off, name, data)) in files.iter().enumerate() {
+                if fi == newest {
+                    continue;
+                }
+                let parsed = refcodec::parse_chunk(data);
+                let bounds = parsed.boundaries();
+                for (ri, rec) in parsed.recs.iter().enumerate() {
+                    let crate::model::Rec::Append(id, _) = rec else { continue };
+                    if want.log.get(&id.1).map(|e| e.0) != Some(*id) {
+                        continue; // not a live entry
+                    }
+                    let (rs, re) = (bounds[ri], bounds[ri + 1]);
+                    let path = format!("{}/{}", td.dir, name);
+                    for pos in rs..re {
+                        if !all && (pos - rs) % 3 != (case.sel % 3) as usize && refcodec::field_at(rec, re - rs, pos - rs) == "payload" {
+                            continue;
+                        }
+                        let o = data[pos];
+                        for v in [o ^ 1, o ^ 0x40, o.wrapping_add(1)] {
+                            use std::os::unix::fs::FileExt;
+                            let f = std::fs::OpenOptions::new().write(true).open(&path).expect("open chunk for live corruption");
+                            f.write_all_at(&[v], pos as u64).expect("corrupt byte");
+                            evals += 1;
+                            *labels.entry("live_corruption_reads".into()).or_insert(0) += 1;
+                            nt.push(mix(mix(img_hash, 1_000_000 + fi as u64), pos as u64));
+                            let res = std::panic::catch_unwind(std::panic::AssertUnwindSafe(|| crate::driver::read_all(&rl, 0, u64::MAX)));
+                            f.write_all_at(&[o], pos as u64).expect("restore byte");
+                            let desc = format!("while the store is open, byte {pos} of {name} ({} of the record of live entry {:?}) changed {:#04x} -> {:#04x}", refcodec::field_at(rec, re - rs, pos - rs), id, o, v);
+                            match res {
+                                Ok(Err(_)) => *labels.entry("live_corruption_reported".into()).or_insert(0) += 1,
+                                Ok(Ok(got)) => {
+                                    if got != want_entries {
+                                        live_fail = Some(Fail::new("corrupt-entry-read-back-silently", format!("{desc}: read(0,MAX) succeeded and returned {:?}; written were {:?}", crate::driver::brief(&got), crate::driver::brief(&want_entries))));
+                                        break 'outer;
+                                    }
+                                    live_fail = Some(Fail::new("corrupt-record-read-without-error", format!("{desc}: read(0,MAX) succeeded with the original contents although the record on disk is damaged (no checksum error)")));
+                                    break 'outer;
+                                }
+                                Err(p) => {
+                                    live_fail = Some(Fail::new("panic-on-corrupt-image", format!("{desc}: read panicked: {}", crate::driver::panic_msg(&p))));
+                                    break 'outer;
+                                }
+                            }
+                        }
+                    }
+                }
+            }
+            drop(rl);
+            crate::trace::wait_threads(threads0, crate::driver::WATCHDOG);
+            td.restore();
+            if let Some(f) = live_fail {
+                return Err(f);
             }
         }
         if sample.is_none() {
